@@ -2,7 +2,7 @@
 import time, json, os, hashlib, subprocess, tempfile
 import z3
 from .core import *
-from . import models, tokens, strmodels  # noqa: F401  (registers the models)
+from . import models, tokens, strmodels, nommodels  # noqa: F401  (registers the models)
 
 _PROG = {}
 
